@@ -283,7 +283,77 @@ def module_unit(mod):
     return scenario
 
 
+def connect_twice(sx):
+    """the client's real connection handshake maps the reported config-file naming to table modules: two spas of
+    different platforms that report the same version numbers, connected one after the other in one process, each get
+    their own platform's tables"""
+    from sx.vloop import VLoop, patched_time
+    from geckolib.async_spa import GeckoAsyncSpa
+    from geckolib.async_spa_descriptor import GeckoAsyncSpaDescriptor
+    from geckolib.utils.simulator import GeckoSimulator
+    from geckolib.utils.shared_command import GeckoCmd
+    from geckolib.config import GeckoConfig
+    from .common import SRC_ID, CLI_ID, DEST, combos
+    from .c01 import _serve
+    from . import facade_env as fe
+    GeckoCmd._init_logging = lambda self: None
+    # two platforms sharing a (cfg, log) pair of version numbers
+    by = {}
+    need = {"PackType", "PackConfID", "PackConfRev", "PackConfRel", "ConfigNumber"}
+    dd = current_declared()
+    for p, c, l in combos():
+        keys = set(dd[f"{p}-cfg-{c}"]["GeckoConfigStruct"]["items"]) | set(dd[f"{p}-log-{l}"]["GeckoLogStruct"]["items"])
+        if need <= keys:          # (tables without the identification items cannot complete a handshake at all)
+            by.setdefault((c, l), []).append(p)
+    shared = sorted((k, v) for k, v in by.items() if len(set(v)) >= 2)
+    sx.check(bool(shared), "mod.two-platforms-share-version-numbers")
+    (c, l), plats = shared[sx.choice("pair", min(len(shared), 3))]
+    plats = sorted(set(plats))[:2]
+    if sx.choice("order", 2):
+        plats.reverse()
+    decl = current_declared()
+    saved = GeckoConfig.PROTOCOL_TIMEOUT_IN_SECONDS
+    GeckoConfig.PROTOCOL_TIMEOUT_IN_SECONDS = 0.25
+    try:
+        for plat in plats:
+            name = decl[plat]["GeckoPack"]["name"]
+
+            class Snap:
+                packtype = "MrSt" if name == "MrSteam" else name
+                config_version, log_version = c, l
+                intouch_EN, intouch_CO = (88, 15, 0), (89, 11, 0)
+                bytes = bytes(1024)
+            sim = GeckoSimulator()
+            sim.snapshot = Snap()
+            loop = VLoop()
+            PARMS = (DEST[0], DEST[1], SRC_ID, CLI_ID)
+
+            def on_endpoint(tr, proto, kw, sim=sim, loop=loop):
+                def on_send(tr_, data, addr):
+                    for content in _serve(sim, data):
+                        loop.call_later(0.01, proto.datagram_received, content, PARMS)
+                tr.on_send = on_send
+            loop.on_endpoint = on_endpoint
+            events = []
+
+            async def ev(e, **k):
+                events.append(e)
+            spa = GeckoAsyncSpa(CLI_ID, GeckoAsyncSpaDescriptor(SRC_ID, "spa", DEST), fe.TaskMan(), ev)
+            with patched_time(loop):
+                loop.run_until_complete(spa.connect(), max_time=120.0)
+            loop.cancel_all()
+            sx.check(spa.is_connected, "mod.handshake-completes", lambda: f"{plat} {c}/{l}: {[e.name for e in events][-3:]}")
+            if spa.is_connected:
+                cm, lm = type(spa.config_class).__module__, type(spa.log_class).__module__
+                sx.check(cm == f"geckolib.driver.packs.{plat}-cfg-{c}" and lm == f"geckolib.driver.packs.{plat}-log-{l}",
+                         "mod.connection-loads-the-reported-platforms-tables", lambda: f"{plat}: {cm} / {lm}")
+                sx.check(spa.pack_class.name == name, "mod.connection-loads-the-reported-pack")
+    finally:
+        GeckoConfig.PROTOCOL_TIMEOUT_IN_SECONDS = saved
+
+
 def units(tier):
+    yield Unit("connect-twice", connect_twice, validate=False)
     for key, (mod, tag, prec) in sorted(groups().items(), key=lambda kv: (kv[1][0], kv[1][1])):
         yield Unit(f"equiv.{mod}.{tag}", equiv(mod, tag, prec), max_paths=20000, ratio_floats=True)
     from . import c04
